@@ -302,6 +302,100 @@ func init() {
 					c.count("c03:state-variant")
 				}
 			}
+			// position sweeps: corrupt ONE character of the state's nonce part / of the CSRF cookie value at every
+			// position (quick: evenly spaced sample + boundaries): the callback must never establish a session
+			{
+				b := newBrowser()
+				sl := e.startOne(b, "S", "/sweep")
+				if sl != nil && sl.cookie != "" {
+					nonceLen := 43
+					cval := strings.SplitN(sl.cookie, "=", 2)[1]
+					sample := func(n int) []int {
+						step := 1
+						if c.scale <= 1 {
+							step = n/10 + 1
+						}
+						ks := []int{0, 1, n - 2, n - 1}
+						for k := 0; k < n; k += step {
+							ks = append(ks, k)
+						}
+						return ks
+					}
+					for _, k := range sample(nonceLen) {
+						st := mutateNonce(sl.state, lc.enc, fmt.Sprintf("at:%d", k))
+						if st == sl.state {
+							continue
+						}
+						target, g := e.callbackFor(sl, u, &st)
+						if g == nil {
+							continue
+						}
+						v := e.do(reqSpec{Target: target, Cookie: b.cookieHeader()})
+						c.casen(fmt.Sprintf("c03|sweep-state|%+v|%d", lc, k), fmt.Sprint(v.Status))
+						c.count("c03:sweep-state")
+						if hasSessionSet(v, e.opts.Cookie.Name) {
+							c.violation("C03", fmt.Sprintf("callback established a session although character %d of the state nonce was altered", k),
+								map[string]interface{}{"state": st, "issued_state": sl.state, "cfg": fmt.Sprintf("%+v", cfg)})
+						}
+					}
+					for _, k := range sample(len(cval)) {
+						if k < 0 || k >= len(cval) {
+							continue
+						}
+						nv := cval[:k] + string(flipB64(cval[k])) + cval[k+1:]
+						target, g := e.callbackFor(sl, u, nil)
+						if g == nil {
+							continue
+						}
+						v := e.do(reqSpec{Target: target, Cookie: sl.name + "=" + nv})
+						c.casen(fmt.Sprintf("c03|sweep-cookie|%+v|%d", lc, k), fmt.Sprint(v.Status))
+						c.count("c03:sweep-cookie")
+						if hasSessionSet(v, e.opts.Cookie.Name) {
+							c.violation("C03", fmt.Sprintf("callback established a session although character %d of the CSRF cookie value was altered", k),
+								map[string]interface{}{"position": k, "length": len(cval), "cfg": fmt.Sprintf("%+v", cfg)})
+							c.violation("C02", fmt.Sprintf("a CSRF cookie altered at character %d was accepted", k), map[string]interface{}{"position": k, "length": len(cval)})
+						}
+					}
+					// the untouched pair still completes (the sweep rejected for the right reason)
+					target, _ := e.callbackFor(sl, u, nil)
+					if v := e.do(reqSpec{Target: target, Cookie: b.cookieHeader()}); !hasSessionSet(v, e.opts.Cookie.Name) {
+						c.violation("HARNESS", "sweep control: the unmodified login did not complete", fmt.Sprintf("%+v", cfg))
+					}
+				}
+			}
+			// pairing matrix (thorough): 3 browsers x 2-3 logins each; EVERY (state, cookie) pairing completes iff the
+			// cookie is the unmodified one issued together with that state
+			if c.scale > 1 {
+				var all []*startedLogin
+				for bi := 0; bi < 3; bi++ {
+					bb := newBrowser()
+					for li := 0; li < 2+bi%2; li++ {
+						if sl := e.startOne(bb, fmt.Sprintf("M%d", bi), fmt.Sprintf("/m/%d/%d", bi, li)); sl != nil && sl.cookie != "" {
+							all = append(all, sl)
+						}
+					}
+				}
+				for i, si := range all {
+					for j, sj := range all {
+						target, g := e.callbackFor(si, u, nil)
+						if g == nil {
+							continue
+						}
+						// present cookie j under the name the proxy will look for with state i (per-request names differ)
+						ck := sj.cookie
+						v := e.do(reqSpec{Target: target, Cookie: ck})
+						est := hasSessionSet(v, e.opts.Cookie.Name)
+						c.casen(fmt.Sprintf("c03|matrix|%+v|%d|%d", lc, i, j), fmt.Sprint(est))
+						c.count("c03:matrix")
+						if est && si.cookie != sj.cookie {
+							c.violation("C03", "pairing matrix: a callback completed with the CSRF cookie of a different login", map[string]interface{}{"state_of": si.rd, "cookie_of": sj.rd, "cfg": fmt.Sprintf("%+v", cfg)})
+						}
+						if !est && i == j {
+							c.violation("C03", "pairing matrix: a login's own state and cookie did not complete", map[string]interface{}{"login": si.rd, "cfg": fmt.Sprintf("%+v", cfg), "status": v.Status})
+						}
+					}
+				}
+			}
 			// C05: identity-provider nonce behaviours on a fresh login each
 			for _, mode := range []string{"echo", "other", "empty", "absent", "raw", "replay"} {
 				b := newBrowser()
@@ -397,7 +491,7 @@ func init() {
 			e.close()
 		}
 		_ = time.Now
-		c.close([]string{"c03:established", "c03:rejected", "c03:state-variant", "nonce:echo", "nonce:raw", "pkce:S256", "kind:redirect", "kind:errorPage", "c05:rand-fault", "c05:fresh-check", "c08:no-email"})
+		c.close([]string{"c03:established", "c03:rejected", "c03:state-variant", "nonce:echo", "nonce:raw", "pkce:S256", "kind:redirect", "kind:errorPage", "c05:rand-fault", "c05:fresh-check", "c08:no-email", "c03:sweep-state", "c03:sweep-cookie"})
 	})
 }
 
@@ -485,12 +579,35 @@ func mutateNonce(state string, enc bool, how string) string {
 		nonce = nonce + "\r\n"
 	case "pad":
 		nonce = nonce + "="
+	default:
+		// "at:<k>": corrupt the k-th character of the nonce part (top bit of its base64 value, so the decoded bytes change too)
+		var k int
+		if _, err := fmt.Sscanf(how, "at:%d", &k); err == nil && k < len(nonce) {
+			nonce = nonce[:k] + string(flipB64(nonce[k])) + nonce[k+1:]
+		}
 	}
 	raw = nonce + rest
 	if enc {
 		return base64.RawURLEncoding.EncodeToString([]byte(raw))
 	}
 	return raw
+}
+
+// flipB64: another character of the base64 alphabets whose 6-bit value differs in the most significant bit
+// (the decoded bytes always change); any other character becomes 'A' / 'B'
+func flipB64(ch byte) byte {
+	const url = "ABCDEFGHIJKLMNOPQRSTUVWXYZabcdefghijklmnopqrstuvwxyz0123456789-_"
+	const std = "ABCDEFGHIJKLMNOPQRSTUVWXYZabcdefghijklmnopqrstuvwxyz0123456789+/"
+	if i := strings.IndexByte(url, ch); i >= 0 {
+		return url[i^32]
+	}
+	if i := strings.IndexByte(std, ch); i >= 0 {
+		return std[i^32]
+	}
+	if ch == 'A' {
+		return 'B'
+	}
+	return 'A'
 }
 
 type failingReader struct {
